@@ -35,20 +35,20 @@ CHECKS = {
          "Signature::verify is compared on every generated case with an independent evaluation of the Pointcheval-Sanders relation from the key's wire atoms, and with the verdict expected by construction; degenerate signatures are reached through a scripted RNG.",
          "bls12_381 pairing and group law",
          "5 C07"),
- "C08": ("proptest over honest and single-atom-tampered signature requests; differential against an independent Schnorr evaluation",
-         "Honest requests must yield the very commitment of the proof as blind-signable value and a signature verifying only on the message; tampered requests must yield none.",
+ "C08": ("proptest over honest, single-atom-tampered and jointly moved signature requests; differential against an independent Schnorr evaluation",
+         "Honest requests must yield the very commitment of the proof as blind-signable value and a signature verifying only on the message; tampered requests must yield none; a request whose commitment and response are moved together is accepted for, and signed as, the other commitment; whatever field is changed, an accepted request hands out the commitment its proof is about.",
          "bls12_381 arithmetic; hook commitment_of exposes VerifiedBlindedMessage's commitment",
          "5 C08"),
  "C09": ("proptest; reference model (independent accumulation and scalar-only evaluation with known discrete logs)",
-         "Commit / verify_opening compared with the Pedersen map over generators read from the parameter encoding, including constructed collisions that must be accepted.",
+         "Commit / verify_opening compared with the Pedersen map over generators read from the parameter encoding, including constructed collisions that must be accepted and algebraically related wrong openings (negated / scaled whole opening, message, blinding factor, one coordinate).",
          "bls12_381 group law",
          "5 C09"),
  "C10": ("proptest over a scenario grammar of documented constraint patterns; validity predicate on response scalars",
          "Scenarios of 1-3 proofs with every documented pattern built as the documentation prescribes; all verify_* must hold under the proof-derived challenge, which must equal the builder-derived one, and the pattern relations must hold.",
          "documented recipes of zkchannels_crypto::proofs",
          "5 C10"),
- "C11": ("proptest over atom perturbations, simulated transcripts and degenerate signatures; differential against independent relation evaluators",
-         "Verifier verdict == Schnorr / pairing relation evaluated on the wire atoms, for accept and reject classes, plus expectation by construction.",
+ "C11": ("proptest over atom perturbations, simulated transcripts, degenerate signatures and compensating multi-field changes; differential against independent relation evaluators",
+         "Verifier verdict == Schnorr / pairing relation evaluated on the wire atoms (each conjunct separately), for accept and reject classes, plus expectation by construction; includes proofs in which the discrepancy of one relation is moved into the other and signature proofs assembled from the public key alone; a change of any field outside the relations must reject too.",
          "bls12_381 pairing and group law",
          "5 C11"),
  "C12": ("exhaustive enumeration of wire atoms per ChallengeInput type (metamorphic: atom change => challenge change) + proptest on byte inputs + zkAbacus atoms through the challenge recorder",
@@ -64,11 +64,11 @@ CHECKS = {
          "fresh 255-bit values do not collide by chance",
          "5 C14, 8"),
  "C15": ("enumeration of (type, atom, invalid/boundary encoding) + round trips; differential against an independent schema decoder",
-         "decode Ok <=> schema decoder (kind validity + exactly the listed invariants) accepts; accepted values re-encode to the consumed bytes; honest values of every type round-trip; decoded keys behave identically; channel id text form round-trips.",
+         "decode Ok <=> schema decoder (kind validity, true element counts of fixed-size arrays + exactly the listed invariants) accepts; accepted values re-encode to the consumed bytes; honest values of every type round-trip; decoded keys behave identically; channel id text form round-trips.",
          "bls12_381 point/scalar codecs as ground truth for canonical / on-curve / in-subgroup",
          "5 C15"),
- "C16": ("enumerated structural mutations decoded in isolated worker processes under a tracking allocator (crash / allocation monitor); libFuzzer campaign in the thorough tier",
-         "Every length prefix x boundary values, atoms x invalid table, truncations, extensions, random strings for every Deserialize type: the worker must return Ok/Err - no panic, no death, no single allocation above 64 KiB + 32*len.",
+ "C16": ("enumerated structural mutations decoded in isolated worker processes under a tracking allocator (crash / allocation monitor); proptest over channel-id strings; libFuzzer campaign in the thorough tier",
+         "Every length prefix x boundary values, atoms x invalid table, truncations, extensions, random strings for every Deserialize type: the worker must return Ok/Err - no panic, no death, no single allocation above 64 KiB + 32*len; ChannelId::from_str returns Ok/Err on base64 payloads of every length, padding variants and arbitrary text.",
          "OS process isolation; the allocator wrapper sees every Rust allocation",
          "5 C16, 4.6"),
  "C17": ("exhaustive lattice enumeration + proptest random 64-bit triples against an i128 reference; boundary payments through the protocol",
